@@ -8,7 +8,11 @@ package utils
 //@ spec $nlCut(s string) int = ite(len(s) != 0 && s[len(s)-1] == '\n', len(s)-1, len(s))
 //@ spec $crlfLen(s string) int = ite($nlCut(s) != 0 && s[$nlCut(s)-1] == '\r', $nlCut(s)-1, $nlCut(s))
 
+// $crlf(s): s without at most one trailing \n and then at most one trailing \r.
+//@ spec $crlf(s string) string = s[0:$crlfLen(s)]
 //@ func CrLfTrimString [C08 C19]
+//@   modifies nothing
+//@   ensures result == $crlf(s)
 //@   ensures len(result) == $crlfLen(s)
 //@   ensures forall(k, 0, len(result), result[k] == s[k])
 //@   ensures len(s) - len(result) <= 2
